@@ -725,7 +725,9 @@ def stats_part(rep, tmp):
                 ("cone", {"model_key": "hertz_cone",
                           "rating regressor": "Decision Tree",
                           "range_type": "relative cp",
-                          "range_x": [-1e-6, 1e-6]}))
+                          "range_x": [-1e-6, 1e-6]}),
+                ("retract", {"model_key": "hertz_para", "segment": 1,
+                             "weight_cp": 0}))
     ppaths = {}
     for pname, settings in profiles:
         ppaths[pname] = os.path.join(tmp, f"prof_{pname}.cfg")
@@ -742,10 +744,21 @@ def stats_part(rep, tmp):
             for pp in afmformats.find_data(folder,
                                            modality="force-distance"):
                 for idnt in IndentationGroup(pp):
+                    # the curve fitted through the library API with the
+                    # values the profile returns (independent of the
+                    # batch fit's own plumbing)
                     fresh = IndentationGroup(pp)[idnt.enum]
-                    rating.fit_data.__wrapped__(fresh, profile_path=ppath)
-                    E = fresh.fit_properties["params_fitted"]["E"].value
                     pfx = Profile(ppath)
+                    fresh.apply_preprocessing(
+                        preprocessing=pfx["preprocessing"],
+                        options=pfx["preprocessing_options"])
+                    fresh.fit_model(model_key=pfx["model_key"],
+                                    params_initial=pfx.get_fit_params(),
+                                    range_type=pfx["range_type"],
+                                    range_x=pfx["range_x"],
+                                    segment=pfx["segment"],
+                                    weight_cp=pfx["weight_cp"])
+                    E = fresh.fit_properties["params_fitted"]["E"].value
                     r = round(fresh.rate_quality(
                         training_set=pfx["rating training set"],
                         regressor=pfx["rating regressor"]), ndigits=1)
@@ -756,7 +769,8 @@ def stats_part(rep, tmp):
     # every sequence of one or two batch fits into one results directory:
     # the file describes the last run, one row per curve
     seqs = [(a,) for a, _ in profiles] \
-        + [(a, b) for a, _ in profiles for b, _ in profiles]
+        + [("default", "cone"), ("cone", "default"), ("cone", "cone"),
+           ("retract", "default"), ("default", "retract")]
     for seq in seqs:
         outdir = os.path.join(tmp, "out_" + "_".join(seq))
         os.makedirs(outdir, exist_ok=True)
